@@ -54,7 +54,8 @@ def wcs_simple(rot_deg=0.0, cdelt=1e-3, proj='TAN', ctype=('RA', 'DEC'), crval=(
 PIXEL_NAMES = ['circle', 'ellipse', 'rectangle', 'polygon', 'regpoly', 'circleannulus', 'ellipseannulus',
                'rectangleannulus', 'point', 'line', 'text', 'compound', 'circle_excl']
 SKY_NAMES = ['sky_circle', 'sky_ellipse', 'sky_rectangle', 'sky_polygon', 'sky_circleannulus', 'sky_ellipseannulus',
-             'sky_rectangleannulus', 'sky_point', 'sky_line', 'sky_text', 'sky_compound', 'sky_circle_gal', 'sky_ellipse_excl']
+             'sky_rectangleannulus', 'sky_point', 'sky_line', 'sky_text', 'sky_compound', 'sky_circle_gal', 'sky_ellipse_excl',
+             'sky_circle_spectral']
 
 
 def make(name):
@@ -117,6 +118,11 @@ def make(name):
         return R.LineSkyRegion(s(39.996, 19.997), s(40.006, 20.005), meta=m(text='sl'))
     if name == 'sky_text':
         return R.TextSkyRegion(s(40.0, 20.007), 'sky text', meta=m(tag=['x']), visual=v(color='white', rotation=30.0))
+    if name == 'sky_circle_spectral':
+        # metadata with mutable values (a list of Quantities, a list of strings): the CRTF spectral keys
+        return R.CircleSkyRegion(s(40.004, 20.001), 9 * u.arcsec,
+                                 meta=m(label='spec', range=[1.2 * u.GHz, 1.5 * u.GHz], corr=['I', 'Q'], frame='BARY', veltype='RADIO',
+                                        restfreq='1.42GHz'))
     if name == 'sky_compound':
         return R.CompoundSkyRegion(make('sky_circle'), make('sky_rectangle'), operator.and_, meta=m(text='scmp'), visual=v(color='blue'))
     raise KeyError(name)
